@@ -49,6 +49,7 @@ package domains
 //@ func PackageDomainAtDepth
 //@   props C16
 //@   ensures $dom == lvl - 1 - depth
+//@   ensures result == "error domain: pkg " + dirOf(callerFile(lvl - 1 - depth))
 
 //@ func PackageDomain
 //@   props C16
